@@ -59,6 +59,11 @@ fn ev(token: &soroban_sdk::xdr::ScAddress, topics: Vec<ScVal>, data: ScVal) -> E
     }
 }
 
+/// Model index of the account address that shares its 32 identifying bytes with cast member `k`
+/// (a contract address): a different address, which can hold funds and be named as spender, but
+/// for which nobody can sign in the harness.
+const TWIN: usize = 1000;
+
 const STANDARD_KINDS: &[&str] = &["transfer", "mint", "burn", "approve", "set_admin", "minter_added", "minter_removed", "clawback", "set_authorized"];
 
 pub fn run(ctx: &Ctx, rep: &mut Report) {
@@ -69,6 +74,7 @@ pub fn run(ctx: &Ctx, rep: &mut Report) {
         let mut u = U::with_ledger(1000 + rng.below(1000) as u32, 1_000_000);
         // cast: 0..4 plain accounts, 5 = initial owner, 6 = designated minter, 7.. later owners
         let mut cast: Vec<Address> = (0..7).map(|_| u.principal()).collect();
+        let twins: Vec<Address> = (0..5).map(|k| twin_of(&u.env, &cast[k])).collect();
         let with_minter = rng.chance(1, 2);
         let id = rng.bytes32();
         let tok = {
@@ -156,7 +162,8 @@ pub fn run(ctx: &Ctx, rep: &mut Report) {
                 }
                 "transfer" => {
                     actor = a;
-                    let to = b;
+                    // now and then the recipient is the account twin of a cast member
+                    let (to, to_addr) = if rng.chance(1, 8) { (TWIN + b, twins[b].clone()) } else { (b, cast[b].clone()) };
                     want = if amount < 0 {
                         Want::Fail("negative-amount")
                     } else if m.balance(a) < amount {
@@ -167,8 +174,8 @@ pub fn run(ctx: &Ctx, rep: &mut Report) {
                         Want::Ok
                     };
                     desc = format!("transfer #{} -> #{} amount {}({})", a, to, amount, aclass);
-                    want_events.push(ev(&tsc, vec![sv_sym("transfer"), sv_addr(&sc_addr(&cast[a])), sv_addr(&sc_addr(&cast[to]))], sv_i128(amount)));
-                    let (fc, tc) = (cast[a].clone(), cast[to].clone());
+                    want_events.push(ev(&tsc, vec![sv_sym("transfer"), sv_addr(&sc_addr(&cast[a])), sv_addr(&sc_addr(&to_addr))], sv_i128(amount)));
+                    let (fc, tc) = (cast[a].clone(), to_addr.clone());
                     f = Box::new(move |env: &Env| flat(InterchainTokenClient::new(env, &tk).try_transfer(&fc, &tc, &amount)));
                     apply = Box::new(move |m: &mut Model| {
                         *m.bal.entry(a).or_insert(0) -= amount;
@@ -177,7 +184,8 @@ pub fn run(ctx: &Ctx, rep: &mut Report) {
                 }
                 "approve" => {
                     actor = a;
-                    let spender = b;
+                    // now and then the spender named is the account twin of a cast member
+                    let (spender, spender_addr) = if rng.chance(1, 6) { (TWIN + b, twins[b].clone()) } else { (b, cast[b].clone()) };
                     let eclass = *rng.pick(EXPIRIES);
                     let expiry: u32 = match eclass {
                         "seq-1" => seq - 1,
@@ -200,8 +208,8 @@ pub fn run(ctx: &Ctx, rep: &mut Report) {
                         Want::Ok
                     };
                     desc = format!("approve #{} -> spender #{} amount {}({}) expiry {}({})", a, spender, amount, aclass, expiry, eclass);
-                    want_events.push(ev(&tsc, vec![sv_sym("approve"), sv_addr(&sc_addr(&cast[a])), sv_addr(&sc_addr(&cast[spender]))], sv_vec(vec![sv_i128(amount), sv_u32(expiry)])));
-                    let (fc, sc) = (cast[a].clone(), cast[spender].clone());
+                    want_events.push(ev(&tsc, vec![sv_sym("approve"), sv_addr(&sc_addr(&cast[a])), sv_addr(&sc_addr(&spender_addr))], sv_vec(vec![sv_i128(amount), sv_u32(expiry)])));
+                    let (fc, sc) = (cast[a].clone(), spender_addr.clone());
                     f = Box::new(move |env: &Env| flat(InterchainTokenClient::new(env, &tk).try_approve(&fc, &sc, &amount, &expiry)));
                     apply = Box::new(move |m: &mut Model| {
                         m.allow.insert((a, spender), (amount, expiry));
@@ -330,7 +338,7 @@ pub fn run(ctx: &Ctx, rep: &mut Report) {
                     rep.count("op:advance");
                     rep.count(&format!("advance:{}", d));
                     // expiry / eviction must be reflected by the getters right away
-                    if !read_back(rep, &mut u, &tok, &cast, &m, "advance") {
+                    if !read_back(rep, &mut u, &tok, &cast, &twins, &m, "advance") {
                         alive = false;
                     }
                     continue;
@@ -391,7 +399,7 @@ pub fn run(ctx: &Ctx, rep: &mut Report) {
                 }
                 apply(&mut m);
             }
-            if !read_back(rep, &mut u, &tok, &cast, &m, op) {
+            if !read_back(rep, &mut u, &tok, &cast, &twins, &m, op) {
                 alive = false;
             }
         }
@@ -403,10 +411,42 @@ pub fn run(ctx: &Ctx, rep: &mut Report) {
     rep.notes.insert("rule".into(), json!("universes of 60 operations on the tree's native InterchainToken over 5 accounts + owner(s) + designated minter: mint, mint_from, transfer, approve, transfer_from, burn, burn_from, add/remove minter, ownership change (transfer_ownership / set_admin), ledger advancement by {0,1,2,16,17,100, 5 000, 1 300 000}; amounts in {0, 1, balance, balance+1, allowance, allowance+1, i128::MAX, negative, small}, expirations in {seq-1, seq, seq+1, seq+15, seq+16, seq+17, seq+1000, beyond the host TTL cap}; after every operation balance() of every holder, allowance() of all 25 account pairs, is_minter() and owner() are read back, sum of balances is compared with initial + mints - burns; one standard token event per successful change compared with independently built values. distinct = (op, amount class, expectation, outcome)"));
 }
 
-fn read_back(rep: &mut Report, u: &mut U, tok: &Address, cast: &[Address], m: &Model, op: &str) -> bool {
+fn read_back(rep: &mut Report, u: &mut U, tok: &Address, cast: &[Address], twins: &[Address], m: &Model, op: &str) -> bool {
     let seq = u.seq();
     let tk = tok.clone();
     let cs: Vec<Address> = cast.to_vec();
+    // the account twins: their balances and the allowances granted to them are theirs alone
+    let twin_total: Option<i128>;
+    {
+        let (tk, cs, tw) = (tok.clone(), cast.to_vec(), twins.to_vec());
+        let (tb, ta): (Vec<i128>, Vec<i128>) = u.query(move |env| {
+            let cl = InterchainTokenClient::new(env, &tk);
+            let tb = tw.iter().map(|a| cl.balance(a)).collect();
+            let mut ta = Vec::new();
+            for f in 0..5 {
+                for s in 0..5 {
+                    ta.push(cl.allowance(&cs[f], &tw[s]));
+                }
+            }
+            (tb, ta)
+        });
+        twin_total = tb.iter().try_fold(0i128, |acc, b| acc.checked_add(*b));
+        for (k, b) in tb.iter().enumerate() {
+            if *b != m.balance(TWIN + k) {
+                rep.violation(&format!("balance-mismatch-after:{}", op), format!("balance(account twin of #{}) = {}, model {}", k, b, m.balance(TWIN + k)));
+                return false;
+            }
+        }
+        for f in 0..5 {
+            for s in 0..5 {
+                let (got, want) = (ta[f * 5 + s], m.allowance(f, TWIN + s, seq));
+                if got != want {
+                    rep.violation(&format!("allowance-mismatch-after:{}", op), format!("allowance(#{} -> account twin of #{}) = {} at ledger {}, model {}", f, s, got, seq, want));
+                    return false;
+                }
+            }
+        }
+    }
     let (bals, allows, minters, owner): (Vec<i128>, Vec<i128>, Vec<bool>, Address) = u.query(move |env| {
         let cl = InterchainTokenClient::new(env, &tk);
         let bals = cs.iter().map(|a| cl.balance(a)).collect();
@@ -422,7 +462,7 @@ fn read_back(rep: &mut Report, u: &mut U, tok: &Address, cast: &[Address], m: &M
         }
         (bals, allows, minters, cl.owner())
     });
-    let mut sum: Option<i128> = Some(0);
+    let mut sum: Option<i128> = twin_total;
     for (i, b) in bals.iter().enumerate() {
         if *b != m.balance(i) {
             rep.violation(&format!("balance-mismatch-after:{}", op), format!("balance(#{}) = {}, model {}", i, b, m.balance(i)));
